@@ -45,7 +45,7 @@ pub fn emit(args: &[String]) {
     let prof = arg_or(args, "--profile", "mix");
     let out = arg(args, "--out").expect("--out");
     let exhaustive_len = arg_u64(args, "--exhaustive-len", 0) as usize;
-    pest::set_call_limit(NonZeroUsize::new(arg_u64(args, "--call-limit", 20000) as usize));
+    let call_limit = NonZeroUsize::new(arg_u64(args, "--call-limit", 20000) as usize);
     let max_calls = arg_u64(args, "--max-calls", 3000);
     let mut w = writer(&out);
     let mut rng = StdRng::seed_from_u64(seed);
@@ -57,6 +57,7 @@ pub fn emit(args: &[String]) {
         let cfg = profile(&prof, &mut rng);
         let (g, order) = gen::grammar(&mut rng, &cfg);
         let text = grammar_text(&g, Some(&order));
+        pest::set_call_limit(None); // pest_meta's own parser is subject to the global limit
         let (ast, opt) = match guarded(|| front_end(&text)) {
             Ok(Ok(x)) => x,
             Ok(Err(_)) => {
@@ -71,6 +72,7 @@ pub fn emit(args: &[String]) {
             }
         };
         accepted += 1;
+        pest::set_call_limit(call_limit);
         let vm = pest_vm::Vm::new(opt);
         let mut inputs: Vec<String> = if exhaustive_len > 0 {
             gen::all_inputs(&['a', 'b', ' '], exhaustive_len)
